@@ -156,6 +156,9 @@ class ShapelyPolygon(Domain):
                 n=(n - len(bary_coords)), device=device
             )
             points = torch.cat((bary_coords, random_points.as_tensor), dim=0)
+        elif len(bary_coords) > n:  # the box grid can contain too many points
+            keep = torch.randperm(len(bary_coords), device=device)[:n]
+            points = bary_coords[keep]
         return points
 
     def _compute_number_of_points(self, n, d, params):
